@@ -1,33 +1,58 @@
 """C15 - registries behave as dictionaries and keep the tag library consistent.
 
 Model: coq/Registry/Model.v   Theorems: coq/Props/C15.v
-Correspondence: histories of register / unregister / clear / get / all calls on one or two ComponentRegistry
+Correspondence: histories of register / unregister / clear / get / all calls on one to three ComponentRegistry
 objects, each on its own private django.template.Library (with pre-existing tags, with / without
 mark_protected_tags), for the default, the shorthand and a user-defined tag formatter.  After every call the
-result (value or exception class), registry.all() and the Library's tag table are observed and compared
+result (value or exception class), all() of EVERY registry and the tag table of EVERY Library are observed and compared
  (a) with an independent plain-dict reference + the tag/protection predicates of the property (direct oracle),
- (b) with the Coq model evaluated by vm_compute (check_reg).
+ (b) with the Coq model evaluated by vm_compute.
+Exhaustive part: all histories over an alphabet of calls share their prefixes, so they are produced and compared as a
+TREE (Model.check_forest; Props.tree_check_is_per_history_check: accepting a forest = accepting every root-to-node
+history call by call).  The implementation has no snapshot/undo, so every node is reached by replaying its prefix on
+fresh objects; sub-trees are walked by worker processes.  Longer bounds are reached by enumerating one history per ORBIT
+of the renamings that the configuration cannot tell apart (see ORBITS below).
 Histories on two registries that SHARE one Library are outside the claimed domain: they are compared with
 the model as a diagnostic only (never an alarm).
 """
+import collections
 import glob
+import hashlib
 import itertools
 import json
+import multiprocessing
 import os
+import random
+import re
 
 import common as C
 from common import cN, clist, cstr, cbool
 
 IMPORTS = "From DJC Require Import Lib.Base Registry.Model."
-CASE_TYPE = ("list (list str * list str) * list (nat * fmtspec) * list wop * list (out * list (str * bool)) "
-             "* list (list (str * (N * N))) * list (list (str * bool))")
+WOBS = "out * list (list (str * (N * N))) * list (list (str * bool))"
+CFG = "list (list str * list str) * list (nat * fmtspec)"
+TREE_TYPE = CFG + " * oforest"
+PATH_TYPE = CFG + " * list (wop * (%s))" % WOBS
 
 # the three classes of the quantifier: (code of _class_hash, object identity).  K1 and K1b are two distinct
-# class objects with the same import path, hence the same _class_hash.
+# class objects with the same import path, hence the same _class_hash: for the library they are THE SAME CLASS.
 CLASS_CODES = [(0, 0), (1, 1), (1, 2)]
 BUILTINS = ["slot", "fill", "component"]           # tags already in the private Library when the registry gets it
 ERR = {"AlreadyRegistered": "EAlreadyRegistered", "NotRegistered": "ENotRegistered", "ValueError": "EValueError",
        "TagProtectedError": "ETagProtected", "KeyError": "EKeyError"}
+
+# ORBITS.  Two renamings leave a configuration of the exhaustive part unchanged: slot <-> fill (both pre-existing tags
+# of the Library, both protected or both not, treated alike by the formatter: orbit_ok() checks this per
+# configuration) and K1 <-> K1b (two class objects, one _class_hash).  They generate a group G of order 4 acting on
+# histories; the property statement and the model are invariant under G.  A history is CANONICAL when it is the
+# lexicographically least of its orbit, i.e. the first call naming slot or fill names slot and the first register of
+# K1 or K1b registers K1; prefixes of canonical histories are canonical, so the canonical histories form a tree that
+# is enumerated without ever building the others.  Of every sub-tree (task) the image under one member g of G, drawn
+# from the seed, is what is actually run: every orbit is represented exactly once, and no member (e.g. "fill first")
+# is systematically left out.  That the implementation does not tell the members of an orbit apart is not assumed
+# for the shorter bound, where ALL histories are run.
+SYM_NAMES = ("slot", "fill")
+SYM_CLASSES = (1, 2)
 
 _state = {}
 
@@ -40,14 +65,43 @@ def classes():
         k1b = type("C15K1", (Component,), {"template": "", "__module__": "verif_c15_mod"})
         assert k1._class_hash == k1b._class_hash != k0._class_hash and k1 is not k1b
         _state["classes"] = [k0, k1, k1b]
+        _state["clsidx"] = {id(k): i for i, k in enumerate(_state["classes"])}
     return _state["classes"]
 
 
 def cls_index(obj):
-    for i, k in enumerate(classes()):
-        if obj is k:
-            return i
-    return None
+    classes()
+    i = _state["clsidx"].get(id(obj))
+    return i if i is not None and _state["classes"][i] is obj else None
+
+
+def hash_of(k):
+    return CLASS_CODES[k][0] if isinstance(k, int) else ("other", k)
+
+
+def modhash(d):
+    """a name -> class table with every class replaced by its identity for the library (its _class_hash)"""
+    return {n: hash_of(k) for n, k in d.items()} if isinstance(d, dict) else d
+
+
+def _prefix_formatter(arg):
+    key = ("pf", arg)
+    if key not in _state:
+        from django_components import tag_formatter as tf
+
+        class PrefixFormatter(tf.TagFormatterABC):
+            def start_tag(self, name):
+                return arg + name
+
+            def end_tag(self, name):
+                return "end" + arg + name
+
+            def parse(self, tokens):
+                tokens = [*tokens]
+                name = tokens.pop(0)
+                return tf.TagResult(name[len(arg):], tokens)
+        _state[key] = PrefixFormatter
+    return _state[key]()
 
 
 def formatter_for(spec):
@@ -66,18 +120,7 @@ def formatter_for(spec):
     if kind == "badcomponent":
         return RegistrySettings(tag_formatter=tf.ComponentFormatter(arg))
     if kind == "prefix":
-        class PrefixFormatter(tf.TagFormatterABC):
-            def start_tag(self, name):
-                return arg + name
-
-            def end_tag(self, name):
-                return "end" + arg + name
-
-            def parse(self, tokens):
-                tokens = [*tokens]
-                name = tokens.pop(0)
-                return tf.TagResult(name[len(arg):], tokens)
-        return RegistrySettings(tag_formatter=PrefixFormatter())
+        return RegistrySettings(tag_formatter=_prefix_formatter(arg))
     raise ValueError(spec)
 
 
@@ -125,9 +168,11 @@ class World:
             self.orig.append(orig)
         self.regs = [ComponentRegistry(library=self.libs[li], settings=formatter_for(f)) for li, f in regspecs]
         self.reglib = [li for li, _ in regspecs]
+        self.private = [sum(1 for x in self.reglib if x == li) == 1 for li in self.reglib]
+        self._tag = {}
 
     def close(self):
-        # ComponentRegistry.__init__ appends every instance to a module-level list; do not let 10^5 of them pile up
+        # ComponentRegistry.__init__ appends every instance to a module-level list; do not let 10^6 of them pile up
         del self._cr.all_registries[self._n0:]
 
     def call(self, i, o):
@@ -153,7 +198,11 @@ class World:
         d = self.regs[i].all()
         if not isinstance(d, dict):
             return ("other", repr(d))
-        return {n: (cls_index(c) if cls_index(c) is not None else repr(c)) for n, c in d.items()}
+        out = {}
+        for n, c in d.items():
+            k = cls_index(c)
+            out[n] = k if k is not None else repr(c)
+        return out
 
     def snapshot(self, li):
         lib, orig = self.libs[li], self.orig[li]
@@ -161,135 +210,208 @@ class World:
 
     def start_tag(self, i, name):
         """What tag the registry's own formatter assigns to `name` (None: it refuses the name)."""
-        from django_components.tag_formatter import get_tag_formatter
-        try:
-            return get_tag_formatter(self.regs[i]).start_tag(name)
-        except ValueError:
-            return None
+        key = (i, name)
+        if key not in self._tag:
+            from django_components.tag_formatter import get_tag_formatter
+            try:
+                self._tag[key] = get_tag_formatter(self.regs[i]).start_tag(name)
+            except ValueError:
+                self._tag[key] = None
+        return self._tag[key]
 
 
-def run_case(libspecs, regspecs, ops, oracle=True):
-    """Returns (observations per call, final all() per registry, final tags per library, oracle failures, stats)."""
-    w = World(libspecs, regspecs)
-    ks = classes()
+# ---------------------------------------------------------------------------------------------
+# one call + the direct oracle.  `st` is the oracle's own state for the history so far: the plain dictionaries of the
+# property statement (one per registry), the previous tag tables, and what the history has exercised.
+# ---------------------------------------------------------------------------------------------
+def new_state(w):
+    return {"ref": [dict() for _ in w.regs], "prev": [w.snapshot(li) for li in range(len(w.libs))],
+            "added": False, "removed": False, "err": False, "shared": False}
+
+
+def copy_state(st):
+    c = dict(st)
+    c["ref"] = [dict(d) for d in st["ref"]]
+    return c
+
+
+def do_step(w, libspecs, st, i, o, oracle, notes):
+    """Performs call `o` on registry i.  Returns (result, all() of every registry, tag table of every library,
+    oracle failures); updates st in place."""
+    res = w.call(i, o)
+    alls = [w.all(j) for j in range(len(w.regs))]
+    snaps = [w.snapshot(li) for li in range(len(w.libs))]
+    before = st["prev"]
+    st["prev"] = snaps
+    for li in range(len(snaps)):
+        if snaps[li].keys() != before[li].keys():
+            st["added"] |= any(t not in before[li] for t in snaps[li])
+            st["removed"] |= any(t not in snaps[li] for t in before[li])
+    st["err"] |= res[0] == "err"
+    if not oracle:
+        return res, alls, snaps, []
     fails = []
-    try:
-        ref = [dict() for _ in regspecs]                      # the plain dictionaries of the property statement
-        obs = []
-        stats = {"added": False, "removed": False, "err": False, "shared_tag": False, "reg_ok": 0}
-        prev = [set(w.snapshot(li)) for li in range(len(libspecs))]
-        for step, (i, o) in enumerate(ops):
-            res = w.call(i, o)
-            li = w.reglib[i]
-            snap = w.snapshot(li)
-            obs.append((res, snap))
-            now = set(snap)
-            stats["added"] |= bool(now - prev[li])
-            stats["removed"] |= bool(prev[li] - now)
-            stats["err"] |= res[0] == "err"
-            prev[li] = now
-            if not oracle:
-                continue
-            d = ref[i]
-            # ---- (1) dictionary behaviour -------------------------------------------------------
-            what = None
-            if o[0] == "register":
-                n, k = o[1], o[2]
-                conflict = n in d and ks[d[n]]._class_hash != ks[k]._class_hash
-                if conflict != (res == ("err", "AlreadyRegistered")):
-                    what = "AlreadyRegistered raised iff a different class holds the name"
-                elif conflict:
-                    pass
-                elif res == ("none",):
-                    d[n] = k
-                    stats["reg_ok"] += 1
-                elif res[0] == "err" and res[1] in ("ValueError", "TagProtectedError"):
-                    pass                                       # name refused by formatter / protection: dict unchanged
-                else:
-                    what = "register returned/raised something else than None / the documented refusals"
-            elif o[0] == "unregister":
-                missing = o[1] not in d
-                if missing != (res == ("err", "NotRegistered")):
-                    what = "NotRegistered raised iff the name is missing (unregister)"
-                elif not missing:
-                    if res != ("none",):
-                        what = "unregister of a registered name failed"
-                    else:
-                        del d[o[1]]
-            elif o[0] == "get":
-                exp = ("cls", d[o[1]]) if o[1] in d else ("err", "NotRegistered")
-                if res != exp:
-                    what = "get returns the class last registered under the name / NotRegistered iff missing"
-            elif o[0] == "clear":
-                if res != ("none",):
-                    what = "clear failed"
-                else:
-                    d.clear()
+    d = st["ref"][i]
+    # ---- (1) dictionary behaviour; class identity = _class_hash, as for the library -----------------------------
+    what = None
+    if o[0] == "register":
+        n, k = o[1], o[2]
+        conflict = n in d and hash_of(d[n]) != hash_of(k)
+        if conflict != (res == ("err", "AlreadyRegistered")):
+            what = "AlreadyRegistered raised iff a different class holds the name"
+        elif conflict:
+            pass
+        elif res == ("none",):
+            if n in d and d[n] != k:
+                # the same class for the library (same import path), another class object: reported, never an alarm
+                notes["same_hash_other_object_reregistered"] += 1
+                got = alls[i].get(n) if isinstance(alls[i], dict) else None
+                notes["...stored_object_is_the_new_one" if got == k else
+                      "...stored_object_is_the_old_one" if got == d[n] else "...stored_object_is_something_else"] += 1
+            elif n in d:
+                notes["identical_object_reregistered"] += 1
+            d[n] = k
+        elif res[0] == "err" and res[1] in ("ValueError", "TagProtectedError"):
+            pass                                       # name refused by formatter / protection: dict unchanged
+        else:
+            what = "register returned/raised something else than None / the documented refusals"
+    elif o[0] == "unregister":
+        missing = o[1] not in d
+        if missing != (res == ("err", "NotRegistered")):
+            what = "NotRegistered raised iff the name is missing (unregister)"
+        elif not missing:
+            if res != ("none",):
+                what = "unregister of a registered name failed"
             else:
-                if res != ("all", d):
-                    what = "all() equals the dictionary"
-            if what is None and w.all(i) != d:
-                what = "registry contents differ from the dictionary after the call"
-            if what is not None:
-                fails.append(("c15-dict", "step %d %r on registry %d: %s (got %r, dictionary %r)" % (step, o, i, what, res, dict(d))))
+                del d[o[1]]
+    elif o[0] == "get":
+        if o[1] in d:
+            if not (res[0] == "cls" and hash_of(res[1]) == hash_of(d[o[1]])):
+                what = "get returns the class registered under the name"
+        elif res != ("err", "NotRegistered"):
+            what = "get raises NotRegistered iff the name is missing"
+    elif o[0] == "clear":
+        if res != ("none",):
+            what = "clear failed"
+        else:
+            d.clear()
+    else:
+        if not (res[0] == "all" and modhash(res[1]) == modhash(d)):
+            what = "all() equals the dictionary"
+    if what is None:
+        for j in range(len(w.regs)):
+            if modhash(alls[j]) != modhash(st["ref"][j]):
+                what = "contents of registry %d differ from its dictionary after the call" % j
                 break
-            # ---- (2) tag exists exactly while used; (3) protected tags untouched -----------------
-            if sum(1 for x in w.reglib if x == li) == 1:     # claimed on private libraries only
-                used = {}
-                for n in d:
-                    used.setdefault(w.start_tag(i, n), []).append(n)
-                stats["shared_tag"] |= any(len(v) > 1 for v in used.values())
-                orig = w.orig[li]
-                prot = prot_list(libspecs[li][1])
-                for t in set(snap) | set(used) | set(orig):
-                    if t in used and (t not in snap or snap[t]):
-                        fails.append(("c15-tag-iff-used", "step %d %r: tag %r is used by %r but %s" % (
-                            step, o, t, used[t], "absent from library.tags" if t not in snap else "still the pre-existing function")))
-                    if t not in orig and t in snap and t not in used:
-                        fails.append(("c15-tag-iff-used", "step %d %r: tag %r is in library.tags but no registered component uses it" % (step, o, t)))
-                    if t in orig and t in prot and snap.get(t) is not True:
-                        fails.append(("c15-protected-touched", "step %d %r: protected tag %r was %s" % (
-                            step, o, t, "removed" if t not in snap else "overwritten")))
-                if fails:
-                    break
-        alls = [w.all(i) for i in range(len(regspecs))]
-        libs = [w.snapshot(li) for li in range(len(libspecs))]
-        return obs, alls, libs, fails, stats
+    if what is not None:
+        fails.append(("c15-dict", "%r on registry %d: %s (got %r, dictionary %r)" % (o, i, what, res, dict(d))))
+        return res, alls, snaps, fails
+    # ---- (2) tag exists exactly while used; (3) protected tags untouched (claimed on private libraries) ---------
+    for j in range(len(w.regs)):
+        if not w.private[j]:
+            continue
+        li = w.reglib[j]
+        snap, orig = snaps[li], w.orig[li]
+        used = {}
+        for n in st["ref"][j]:
+            used.setdefault(w.start_tag(j, n), []).append(n)
+        if len(used) < len(st["ref"][j]):
+            st["shared"] = True
+        prot = prot_list(libspecs[li][1])
+        for t in set(snap) | set(used) | set(orig):
+            if t in used and (t not in snap or snap[t]):
+                fails.append(("c15-tag-iff-used", "%r: tag %r is used by %r but %s" % (
+                    o, t, used[t], "absent from library.tags" if t not in snap else "still the pre-existing function")))
+            if t not in orig and t in snap and t not in used:
+                fails.append(("c15-tag-iff-used", "%r: tag %r is in library.tags but no registered component uses it" % (o, t)))
+            if t in orig:
+                if t in prot:
+                    if snap.get(t) is not True:
+                        fails.append(("c15-protected-touched", "%r: protected tag %r was %s" % (
+                            o, t, "removed" if t not in snap else "overwritten")))
+                else:
+                    # allowed by the statement (it protects PROTECTED tags): counted for the evidence, never an alarm
+                    b, a = before[li].get(t), snap.get(t)
+                    if b is True and a is False:
+                        notes["unprotected_preexisting_tag_overwritten"] += 1
+                    if b is not None and a is None:
+                        notes["unprotected_preexisting_tag_removed_on_unregister"] += 1
+    return res, alls, snaps, fails
+
+
+def run_case(libspecs, regspecs, ops, oracle=True, notes=None):
+    """Returns (observations per call = (result, all() per registry, tags per library), oracle failures, state)."""
+    notes = collections.Counter() if notes is None else notes
+    w = World(libspecs, regspecs)
+    try:
+        st = new_state(w)
+        obs, fails = [], []
+        for step, (i, o) in enumerate(ops):
+            res, alls, snaps, fl = do_step(w, libspecs, st, i, o, oracle, notes)
+            obs.append((res, alls, snaps))
+            if fl:
+                fails = [(t, "step %d %s" % (step, x)) for t, x in fl]
+                break
+        return obs, fails, st
     finally:
         w.close()
 
 
+def nontrivial(st):
+    return st["added"] and st["removed"] and (st["err"] or st["shared"])
+
+
 # ---------------------------------------------------------------------------------------------
-# Coq terms.  Elaborating ~1 kB of nested list literals per case costs coqc ~20 ms; every distinct string, class,
-# call, result, tag table and configuration is therefore defined once (`extra_defs`) and referred to by name.
+# Coq terms.  Elaborating nested list literals costs coqc ~1 ms per kB; every distinct string, class, call, result,
+# tag table and configuration is therefore defined once and referred to by name.  Names are derived from the
+# content, so that tables built by different worker processes can be merged.
 # ---------------------------------------------------------------------------------------------
+RANK = {"s": 0, "k": 0, "a": 1, "p": 1, "o": 1, "al": 2, "pl": 2, "ls": 2, "rs": 2, "q": 3}
+
+
 class Intern:
     def __init__(self):
-        self.tab, self.defs, self.memo = {}, [], {}
+        self.tab, self.memo, self.fresh = {}, {}, {}
 
     def get(self, prefix, typ, term):
         key = (prefix, term)
         name = self.tab.get(key)
         if name is None:
-            name = "%s_%d" % (prefix, len(self.tab))
+            name = "%s_%s" % (prefix, hashlib.md5(term.encode()).hexdigest()[:12])
             self.tab[key] = name
-            self.defs.append("Definition %s : %s := %s." % (name, typ, term))
+            self.fresh[name] = (RANK[prefix], "Definition %s : %s := %s." % (name, typ, term))
         return name
 
-    def text(self):
-        return "\n".join(self.defs) + "\n"
+    def drain(self):
+        f, self.fresh = self.fresh, {}
+        return f
 
 
-INTERNERS = {}          # one table per group of cases (a group is evaluated in its own coqc shards)
 I = Intern()
 
 
-def use_group(g):
-    global I
-    I = INTERNERS.get(g)
-    if I is None:
-        I = INTERNERS[g] = Intern()
-    return I
+NAME_RE = re.compile(r"\b(?:%s)_[0-9a-f]{12}\b" % "|".join(sorted(RANK, key=len, reverse=True)))
+
+
+def names_in(terms):
+    out = set()
+    for t in terms:
+        out.update(NAME_RE.findall(t))
+    return out
+
+
+def defs_text(defs, roots=None):
+    """the definitions (in dependency order) that the names in `roots` need; all of them if roots is None"""
+    if roots is not None:
+        need, todo = set(), list(roots)
+        while todo:
+            n = todo.pop()
+            if n in need:
+                continue
+            need.add(n)
+            todo += [m for m in NAME_RE.findall(defs[n][1].split(":=", 1)[1]) if m not in need]
+        defs = {n: defs[n] for n in need}
+    return "\n".join(line for _, line in sorted(defs.values())) + "\n"
 
 
 def memo(f):
@@ -361,6 +483,25 @@ def snap_term(s):
 
 
 @memo
+def _alls_term(names):
+    return I.get("al", "list (list (str * (N * N)))", clist(names))
+
+
+@memo
+def _snaps_term(names):
+    return I.get("pl", "list (list (str * bool))", clist(names))
+
+
+@memo
+def _obs_term(out, al, pl):
+    return I.get("q", WOBS, "(%s, %s, %s)" % (out, al, pl))
+
+
+def obs_term(res, alls, snaps):
+    return _obs_term(out_term(res), _alls_term(tuple(all_term(a) for a in alls)), _snaps_term(tuple(snap_term(s) for s in snaps)))
+
+
+@memo
 def _cfg_term(ls, rs):
     lt = I.get("ls", "list (list str * list str)",
                clist(["(%s, %s)" % (clist([istr(t) for t in b]), clist([istr(t) for t in p])) for b, p in ls]))
@@ -368,18 +509,26 @@ def _cfg_term(ls, rs):
     return lt, rt
 
 
-def case_term(libspecs, regspecs, ops, obs, alls, libs):
-    ls, rs = _cfg_term(tuple((tuple(b), tuple(prot_list(p))) for b, p in libspecs), tuple(regspecs))
-    os_ = clist([op_term(i, o) for i, o in ops])
-    ob = clist([I.get("q", "out * list (str * bool)", "(%s, %s)" % (out_term(r), snap_term(s))) for r, s in obs])
-    return "(%s, %s, %s, %s, %s, %s)" % (ls, rs, os_, ob, clist([all_term(a) for a in alls]), clist([snap_term(s) for s in libs]))
+def cfg_term(libspecs, regspecs):
+    return _cfg_term(tuple((tuple(b), tuple(prot_list(p))) for b, p in libspecs), tuple(regspecs))
+
+
+def path_term(libspecs, regspecs, ops, obs):
+    ls, rs = cfg_term(libspecs, regspecs)
+    return "(%s, %s, %s)" % (ls, rs, clist(["(%s, %s)" % (op_term(i, o), obs_term(*ob)) for (i, o), ob in zip(ops, obs)]))
+
+
+def forest_term(kids):
+    t = "FN"
+    for k in reversed(kids):
+        t = "FC (%s) (%s)" % (k, t) if t != "FN" else "FC (%s) FN" % k
+    return t
 
 
 # ---------------------------------------------------------------------------------------------
-# generators
+# exhaustive part: trees of histories, walked by worker processes
 # ---------------------------------------------------------------------------------------------
 NAMES3 = ["a", "slot", "fill"]
-NAMES_MORE = ["a", "slot", "fill", "b", "component", "provide", "x-a", "a.b:c", "my comp", "", "a\n", "a\n\n", "{a}", "x-slot", "A_9"]
 
 
 def alphabet(names, nreg=1):
@@ -395,52 +544,224 @@ def alphabet(names, nreg=1):
     return ops
 
 
+def orbit_ok(ls, rs):
+    """slot <-> fill is a symmetry of the configuration: same status in every library, formatters that treat names alike"""
+    x, y = SYM_NAMES
+    for b, p in ls:
+        pl = prot_list(p)
+        if (x in b) != (y in b) or (x in pl) != (y in pl):
+            return False
+    return all(f[0] in ("component", "shorthand") for _, f in rs)
+
+
+def g_apply(g, op):
+    i, o = op
+    sn, sk = g
+    if sn and len(o) > 1 and o[1] in SYM_NAMES:
+        o = (o[0], SYM_NAMES[1 - SYM_NAMES.index(o[1])]) + tuple(o[2:])
+    if sk and o[0] == "register" and o[2] in SYM_CLASSES:
+        o = (o[0], o[1], SYM_CLASSES[1 - SYM_CLASSES.index(o[2])])
+    return (i, o)
+
+
+def canon_child(op, seen):
+    """may `op` extend a canonical history that has (seen[0]) named slot/fill, (seen[1]) registered K1/K1b? -> new seen or None"""
+    o = op[1]
+    sn, sk = seen
+    if len(o) > 1 and o[1] in SYM_NAMES:
+        if not sn and o[1] == SYM_NAMES[1]:
+            return None
+        sn = True
+    if o[0] == "register" and o[2] in SYM_CLASSES:
+        if not sk and o[2] == SYM_CLASSES[1]:
+            return None
+        sk = True
+    return (sn, sk)
+
+
+JOBS = []      # filled before the worker pool is forked
+
+
+def make_job(ls, rs, alpha, L, kind, orbit=False, claimed=True, split=None):
+    if orbit:
+        assert orbit_ok(ls, rs), (ls, rs)
+    return {"ls": ls, "rs": rs, "alpha": alpha, "L": L, "kind": kind, "orbit": orbit, "claimed": claimed,
+            "split": split if split is not None else max(1, L - 3)}
+
+
+def job_tasks(jid, seed):
+    """the sub-trees of job jid: (jid, canonical-space prefix, seen flags, g)"""
+    job = JOBS[jid]
+    out = []
+
+    def rec(prefix, seen):
+        if len(prefix) == job["split"]:
+            g = (False, False)
+            if job["orbit"]:
+                r = random.Random("C15-orbit-%s-%d-%r" % (seed, jid, prefix))
+                g = (r.random() < 0.5, r.random() < 0.5)
+            out.append((jid, tuple(prefix), seen, g))
+            return
+        for op in job["alpha"]:
+            s2 = canon_child(op, seen) if job["orbit"] else seen
+            if s2 is not None:
+                rec(prefix + [op], s2)
+    rec([], (False, False))
+    return out
+
+
+def walk_task(task, collect_paths=False):
+    """Walks one sub-tree on the implementation.  Returns the forest term (a chain for the prefix, then the sub-tree),
+    counts, digests of the non-trivial histories, oracle failures, notes - and, if asked, every maximal history."""
+    jid, prefix, seen0, g = task
+    job = JOBS[jid]
+    ls, rs, L, alpha, orbit, claimed = job["ls"], job["rs"], job["L"], job["alpha"], job["orbit"], job["claimed"]
+    notes = collections.Counter()
+    res = {"leaves": 0, "nontrivial": [], "fails": [], "paths": []}
+    used = set()
+    cfgkey = repr((ls, rs))
+
+    def node(hist, st):
+        """hist: the actual calls so far (non-empty); st: oracle state BEFORE the last call.  Returns (term, st after)."""
+        w = World(ls, rs)
+        try:
+            for i, o in hist[:-1]:
+                w.call(i, o)
+            i, o = hist[-1]
+            r, alls, snaps, fl = do_step(w, ls, st, i, o, claimed, notes)
+        finally:
+            w.close()
+        ot, qt = op_term(i, o), obs_term(r, alls, snaps)
+        used.add(ot)
+        used.add(qt)
+        return (ot, qt, (r, alls, snaps)), fl
+
+    def leaf(hist, st, obs):
+        res["leaves"] += 1
+        if claimed and nontrivial(st):
+            res["nontrivial"].append(hashlib.md5((cfgkey + repr(hist)).encode()).digest()[:8])
+        if collect_paths:
+            res["paths"].append((list(hist), list(obs)))
+
+    def rec(hist, obs, st, seen, canon_len):
+        # hist/obs/st describe a node already visited; returns the forest of its children
+        if len(hist) == L:
+            leaf(hist, st, obs)
+            return "FN"
+        kids = []
+        if canon_len < len(prefix):
+            cands = [prefix[canon_len]]                       # the chain leading to this task's sub-tree
+        else:
+            cands = alpha
+        for cop in cands:
+            s2 = canon_child(cop, seen) if orbit else seen
+            if s2 is None:
+                continue
+            op = g_apply(g, cop)
+            st2 = copy_state(st)
+            (ot, qt, ob), fl = node(hist + [op], st2)
+            if fl:
+                # the property itself failed here: report the history, do not descend (nothing to compare below)
+                if len(res["fails"]) < 20:
+                    res["fails"].append((fl[0][0], "step %d %s" % (len(hist), fl[0][1]), list(hist + [op])))
+                res["leaves"] += 1
+                kids.append("K %s %s FN" % (ot, qt))
+                continue
+            sub = rec(hist + [op], obs + [ob], st2, s2, canon_len + 1)
+            kids.append("K %s %s %s" % (ot, qt, sub if sub == "FN" else "(%s)" % sub))
+        return forest_term(kids)
+
+    w0 = World(ls, rs)
+    try:
+        st0 = new_state(w0)
+    finally:
+        w0.close()
+    forest = rec([], [], st0, (False, False), 0)
+    lt, rt = cfg_term(ls, rs)
+    res["term"] = "(%s, %s, %s)" % (lt, rt, forest)
+    used.update((lt, rt))
+    res["used"] = used
+    res["nodes"] = forest.count("K ")
+    res["notes"] = notes
+    res["defs"] = I.drain()
+    res["task"] = task
+    return res
+
+
+def _pool_walk(task):
+    return walk_task(task)
+
+
+# ---------------------------------------------------------------------------------------------
+# generators
+# ---------------------------------------------------------------------------------------------
+NAMES_MORE = ["a", "slot", "fill", "b", "component", "provide", "x-a", "a.b:c", "my comp", "", "a\n", "a\n\n", "{a}", "x-slot", "A_9",
+              # Python keywords; names with code points >= 128: letters, digits (\w is Unicode-aware), non-word characters
+              "class", "None", "def", "import", "é", "naïve-ü", "日本", "ß", "x²", "١",
+              "a×b", "a ", " ", "slöt", "\U0001d538", "\U0001f600"]
+
+
 def single_configs():
     for f in [("component", "default"), ("shorthand", "instance")]:
         for prot in [None, "default"]:
             yield [(BUILTINS, prot)], [(0, f)]
 
 
-def gen_cases(chk, thorough):
-    rng = chk.rng
-    # 1. one registry, exhaustive (histories of the maximal length contain every shorter one as an observed prefix).
-    #    Each case costs ~2 ms of coqc, so the bounds are: quick 4 (two configurations) / 3, thorough 5 (one) / 4.
+TWO = [([(BUILTINS, "default"), (BUILTINS, None)], [(0, ("shorthand", "instance")), (1, ("component", "default"))]),
+       ([(BUILTINS, None), (BUILTINS, "default")], [(1, ("shorthand", "string")), (0, ("shorthand", "instance"))])]
+SHARED = ([(BUILTINS, "default")], [(0, ("shorthand", "instance")), (0, ("component", "default"))])
+
+
+def tree_jobs(thorough):
+    """groups of jobs; a group is walked and evaluated in Coq before the next one starts (bounded memory)"""
     alpha = alphabet(NAMES3)
-    for ci, (ls, rs) in enumerate(single_configs()):
-        # the two configurations that exercise everything: component+unprotected (0), shorthand+protected (3)
-        L = (5 if ci == 3 else 4) if thorough else (4 if ci in (0, 3) else 3)
-        for seq in itertools.product(alpha, repeat=L):
-            yield ls, rs, list(seq), "one-exh%d" % L, True
-    # 2. other formatters / protection lists, one registry, shorter
-    extra = [([(BUILTINS, ["a", "component"])], [(0, ("component", "instance"))]),
-             ([(BUILTINS, ["x-a"])], [(0, ("prefix", "x-"))]),
-             ([([], None)], [(0, ("shorthand", "string"))]),
-             ([(BUILTINS, None)], [(0, ("badcomponent", "my tag"))])]
+    singles = list(single_configs())
+    groups = []
+    # 1. one registry, default / shorthand formatter x without / with protected tags: ALL histories
+    Lfull = 5 if thorough else 4
+    groups.append(("one-exh%d" % Lfull, [make_job(ls, rs, alpha, Lfull, "one-exh%d" % Lfull) for ls, rs in singles]))
+    # 2. ... and one history per orbit for the next length(s)
+    for Lo in ((6,) if thorough else (5,)):
+        for ci, (ls, rs) in enumerate(singles):
+            groups.append(("one-orbit%d" % Lo, [make_job(ls, rs, alpha, Lo, "one-orbit%d" % Lo, orbit=True)]))
+    # 3. other formatters / protection lists / names, one registry
     Lx = 4 if thorough else 3
-    for ls, rs in extra:
-        for seq in itertools.product(alpha, repeat=Lx):
-            yield ls, rs, list(seq), "one-extra-exh%d" % Lx, True
-    # 3. two registries on two private libraries, exhaustive interleavings
-    two = [([(BUILTINS, "default"), (BUILTINS, None)], [(0, ("shorthand", "instance")), (1, ("component", "default"))]),
-           ([(BUILTINS, None), (BUILTINS, "default")], [(1, ("shorthand", "string")), (0, ("shorthand", "instance"))])]
+    extra = [([(BUILTINS, ["a", "component"])], [(0, ("component", "instance"))], NAMES3),
+             ([(BUILTINS, ["x-a"])], [(0, ("prefix", "x-"))], NAMES3),
+             ([([], None)], [(0, ("shorthand", "string"))], NAMES3),
+             ([(BUILTINS, None)], [(0, ("badcomponent", "my tag"))], NAMES3),
+             # names that are Python keywords / contain code points >= 128 (a letter; a non-word character: refused)
+             ([(BUILTINS + ["class"], "default")], [(0, ("shorthand", "instance"))], ["class", "slöt", "a×b"]),
+             ([(BUILTINS + ["class"], ["class", "é"])], [(0, ("shorthand", "instance"))], ["class", "é", "None"]),
+             # tag == component name colliding with an UNPROTECTED pre-existing tag, next to a protected one
+             ([(BUILTINS, ["fill"])], [(0, ("shorthand", "instance"))], ["component", "slot", "fill"])]
+    groups.append(("one-extra-exh%d" % Lx, [make_job(ls, rs, alphabet(ns), Lx, "one-extra-exh%d" % Lx) for ls, rs, ns in extra]))
+    # 4. two registries on two private libraries: all interleavings
     alpha2 = alphabet(NAMES3, 2)
-    for ls, rs in two:
-        for seq in itertools.product(alpha2, repeat=3):
-            yield ls, rs, list(seq), "two-private-exh3", True
-    if thorough:
-        alpha2 = alphabet(["a", "slot"], 2)
-        for seq in itertools.product(alpha2, repeat=4):
-            yield two[0][0], two[0][1], list(seq), "two-private-exh4", True
-    # 4. random long histories, 1-3 registries, private libraries, more names
+    L2 = 3
+    groups.append(("two-private-exh%d" % L2, [make_job(ls, rs, alpha2, L2, "two-private-exh%d" % L2) for ls, rs in TWO]))
+    groups.append(("two-private-orbit4", [make_job(ls, rs, alpha2, 4, "two-private-orbit4", orbit=True) for ls, rs in
+                                          (TWO if thorough else TWO[:1])]))
+    if not thorough:
+        groups.append(("two-private-2names-exh4", [make_job(TWO[1][0], TWO[1][1], alphabet(["a", "slot"], 2), 4, "two-private-2names-exh4")]))
+    # 5. OUTSIDE the claimed domain (diagnostic only): two registries sharing one library
+    groups.append(("two-shared-diagnostic", [make_job(SHARED[0], SHARED[1], alphabet(["a", "slot"], 2), 3, "two-shared-diagnostic", claimed=False)]))
+    return groups
+
+
+def random_cases(chk, thorough):
+    rng = chk.rng
+    # random long histories, 1-3 registries, private libraries, more names
     for _ in range(12000 if thorough else 1500):
         nreg = rng.choice([1, 1, 2, 3])
         names = rng.sample(NAMES_MORE, rng.randint(2, 6))
         ls, rs = [], []
         for i in range(nreg):
-            prot = rng.choice([None, "default", "default", ["a", "b"], ["component"], []])
-            ls.append((rng.choice([BUILTINS, BUILTINS, [], ["slot", "a", "x-a"]]), prot))
+            prot = rng.choice([None, "default", "default", ["a", "b"], ["component"], [], ["class", "é"]])
+            ls.append((rng.choice([BUILTINS, BUILTINS, [], ["slot", "a", "x-a"], ["class", "é", "component"]]), prot))
             rs.append((i, rng.choice([("component", "default"), ("component", "instance"), ("shorthand", "instance"),
-                                      ("shorthand", "string"), ("prefix", "x-"), ("prefix", "slo"), ("badcomponent", "")])))
+                                      ("shorthand", "string"), ("prefix", "x-"), ("prefix", "slo"), ("badcomponent", ""),
+                                      ("prefix", "ü:")])))
         order = list(range(nreg))
         rng.shuffle(order)
         rs = [(order[i], f) for i, (_, f) in enumerate(rs)]
@@ -455,11 +776,7 @@ def gen_cases(chk, thorough):
             else:
                 ops.append((i, (kind, rng.choice(names))))
         yield ls, rs, ops, "random-private", True
-    # 5. OUTSIDE the claimed domain (diagnostic only): two registries sharing one library
-    alpha2s = alphabet(["a", "slot"], 2)
-    shared = ([(BUILTINS, "default")], [(0, ("shorthand", "instance")), (0, ("component", "default"))])
-    for seq in itertools.product(alpha2s, repeat=3):
-        yield shared[0], shared[1], list(seq), "two-shared-diagnostic", False
+    # OUTSIDE the claimed domain (diagnostic only): two registries sharing one library
     for _ in range(2000 if thorough else 300):
         fs = [rng.choice([("component", "default"), ("shorthand", "instance"), ("prefix", "x-")]) for _ in range(2)]
         ops = []
@@ -473,8 +790,9 @@ def gen_cases(chk, thorough):
 
 def valid_tag_cases(chk, thorough):
     """Matcher-level differential for TAG_RE / _validate_tag (what the shorthand formatter accepts)."""
-    from django_components.tag_formatter import InternalTagFormatter, ShorthandComponentFormatter
+    from django_components.tag_formatter import InternalTagFormatter, ShorthandComponentFormatter, TAG_RE
     f = InternalTagFormatter(ShorthandComponentFormatter())
+    rng = chk.rng
     alpha = ["a", "Z", "0", "_", "-", ":", "@", ".", "#", "/", " ", "\n", "\t", "{", "%", "\\", "$", "^", "]", "\r", "\x00", "~", "`", "["]
     strs = [""]
     for L in (1, 2, 3 if thorough else 2):
@@ -482,8 +800,21 @@ def valid_tag_cases(chk, thorough):
     strs += ["".join(p) for p in itertools.product(["a", "\n", " ", "-"], repeat=4)]
     strs += [chr(c) for c in range(128)] + ["a" + chr(c) for c in range(128)]
     for _ in range(3000 if thorough else 500):
-        strs.append("".join(chk.rng.choice(alpha) if chk.rng.random() < 0.3 else chr(chk.rng.randrange(32, 127))
-                            for _ in range(chk.rng.randint(1, 12))))
+        strs.append("".join(rng.choice(alpha) if rng.random() < 0.3 else chr(rng.randrange(32, 127))
+                            for _ in range(rng.randint(1, 12))))
+    # code points >= 128: every boundary of the accepted ranges (thorough) / a sample of them, random code points, mixtures
+    edges, prev = [], False
+    for c in range(128, 0x110000):
+        ok = TAG_RE.match(chr(c)) is not None
+        if ok != prev:
+            edges += [c - 1, c]
+            prev = ok
+    edges = [c for c in edges if c >= 128]
+    hi = edges if thorough else rng.sample(edges, 500)
+    hi += [rng.randrange(128, 0x110000) for _ in range(2000 if thorough else 400)] + [0x80, 0x85, 0xA0, 0x2028, 0x2029, 0xD800, 0xDFFF, 0x10FFFF]
+    strs += [chr(c) for c in hi] + ["a" + chr(c) + "-" for c in hi[:300]] + [chr(c) + "\n" for c in hi[:100]]
+    for _ in range(1000 if thorough else 200):
+        strs.append("".join(chr(rng.choice(hi)) if rng.random() < 0.5 else rng.choice(alpha) for _ in range(rng.randint(1, 6))))
     out = []
     for s in strs:
         try:
@@ -497,19 +828,36 @@ def valid_tag_cases(chk, thorough):
 def corpus_cases():
     """Minimised witnesses kept from development (mutants of the anchored code that an earlier generator missed, and
     the shortest histories exercising each clause).  Run first, through the direct oracle."""
+    R, U, G = "register", "unregister", "get"
     lit = [
         # two names share the tag `component`; unregistering one must keep the tag, clear must remove it
         ([(BUILTINS, "default")], [(0, ("component", "default"))],
-         [(0, ("register", "a", 0)), (0, ("register", "slot", 1)), (0, ("unregister", "a")), (0, ("get", "slot")), (0, ("clear",)), (0, ("all",))]),
+         [(0, (R, "a", 0)), (0, (R, "slot", 1)), (0, (U, "a")), (0, (G, "slot")), (0, ("clear",)), (0, ("all",))]),
         # protected names under the shorthand formatter
         ([(BUILTINS, "default")], [(0, ("shorthand", "instance"))],
-         [(0, ("register", "slot", 0)), (0, ("register", "a", 0)), (0, ("register", "a", 1)), (0, ("register", "a", 0)), (0, ("unregister", "fill")), (0, ("clear",))]),
+         [(0, (R, "slot", 0)), (0, (R, "a", 0)), (0, (R, "a", 1)), (0, (R, "a", 0)), (0, (U, "fill")), (0, ("clear",))]),
         # same _class_hash, different class object: accepted, get returns the new object
         ([([], None)], [(0, ("shorthand", "instance"))],
-         [(0, ("register", "a", 1)), (0, ("register", "a", 2)), (0, ("get", "a")), (0, ("unregister", "a")), (0, ("unregister", "a"))]),
+         [(0, (R, "a", 1)), (0, (R, "a", 2)), (0, (G, "a")), (0, (U, "a")), (0, (U, "a"))]),
         # two registries, private libraries, same names
         ([(BUILTINS, None), (BUILTINS, None)], [(0, ("component", "default")), (1, ("component", "default"))],
-         [(0, ("register", "a", 0)), (1, ("register", "a", 1)), (1, ("unregister", "a")), (0, ("get", "a")), (0, ("clear",))]),
+         [(0, (R, "a", 0)), (1, (R, "a", 1)), (1, (U, "a")), (0, (G, "a")), (0, ("clear",))]),
+        # a protected name registered twice under the shorthand formatter must be refused twice and leave nothing behind
+        # (seed C15a: `_tags[tag] = set()` created before the protected-tag check)
+        ([(BUILTINS, "default")], [(0, ("shorthand", "instance"))],
+         [(0, (R, "slot", 0)), (0, (R, "slot", 0)), (0, ("all",)), (0, (U, "slot")), (0, (R, "slot", 1))]),
+        # default formatter: every component uses the tag `component`; unregister of one of three, then of the others
+        ([(BUILTINS, "default")], [(0, ("component", "default"))],
+         [(0, (R, "a", 0)), (0, (R, "b", 1)), (0, (R, "c", 2)), (0, (U, "b")), (0, (G, "a")), (0, (U, "a")), (0, (U, "c")), (0, (R, "a", 0))]),
+        # clear, then the same tag again: nothing stale may survive in `_tags`
+        ([(BUILTINS, "default")], [(0, ("shorthand", "instance"))],
+         [(0, (R, "a", 0)), (0, ("clear",)), (0, (R, "a", 1)), (0, (U, "a")), (0, (R, "a", 0)), (0, ("clear",)), (0, ("all",))]),
+        # tag == name colliding with an unprotected pre-existing tag: overwritten and removed (allowed), protected one refused
+        ([(BUILTINS, ["fill"])], [(0, ("shorthand", "instance"))],
+         [(0, (R, "component", 0)), (0, (R, "fill", 0)), (0, (U, "component")), (0, (R, "slot", 1)), (0, ("clear",))]),
+        # keyword / non-ASCII names
+        ([(BUILTINS + ["class"], ["class"])], [(0, ("shorthand", "instance"))],
+         [(0, (R, "class", 0)), (0, (R, "é", 0)), (0, (R, "a×b", 0)), (0, (R, "None", 1)), (0, (U, "é")), (0, ("all",))]),
     ]
     out = [(ls, rs, ops, "corpus") for ls, rs, ops in lit]
     for p in sorted(glob.glob(os.path.join(C.VERIF, "corpus", "C15", "*.json"))):
@@ -529,7 +877,7 @@ def replay_obj(ls, rs, ops, extra=None):
 
 def shortest_failing_prefix(ls, rs, ops):
     for n in range(1, len(ops) + 1):
-        _, _, _, fails, _ = run_case(ls, rs, ops[:n])
+        _, fails, _ = run_case(ls, rs, ops[:n])
         if fails:
             return ops[:n], fails
     return ops, []
@@ -547,57 +895,144 @@ def run(tier, seed):
     chk = C.Check("C15", tier, seed)
     chk.prove()
     thorough = tier == "thorough"
+    notes = collections.Counter()
+    state = {"nfail": 0, "ndis": 0}
 
     def oracle_fail(ls, rs, ops, fails):
+        state["nfail"] += 1
+        if state["nfail"] > 5:
+            return
         ops2, fails2 = shortest_failing_prefix(ls, rs, ops)
         trig, what = (fails2 or fails)[0]
         chk.fail(trig, what, replay_obj(ls, rs, ops2, {"kind": "history"}))
 
+    def disagree(ls, rs, ops, where):
+        state["ndis"] += 1
+        if state["ndis"] > 10:
+            return
+        chk.disagree("Registry model != ComponentRegistry/Library (results, contents or tag tables) - " + where,
+                     replay_obj(ls, rs, ops, {"kind": "history", "impl": repr(run_case(ls, rs, ops)[0])[:1500]}))
+
     # ---- corpus first ----
     for ls, rs, ops, kind in corpus_cases():
-        obs, alls, libs, fails, st = run_case(ls, rs, ops)
+        obs, fails, st = run_case(ls, rs, ops, notes=notes)
         chk.count(("corpus", repr((ls, rs, ops))), True, kind="corpus")
         if fails:
             oracle_fail(ls, rs, ops, fails)
-    # ---- histories ----
-    groups = {}                                   # group -> (terms, cases); one table of definitions per group
-    nfail = 0
-    for ls, rs, ops, kind, claimed in gen_cases(chk, thorough):
-        obs, alls, libs, fails, st = run_case(ls, rs, ops, oracle=claimed)
-        g = "diag" if not claimed else ("random" if kind.startswith("random") else "exh")
-        use_group(g)
-        terms, cases = groups.setdefault(g, ([], []))
+
+    # ---- exhaustive part: trees ----
+    classes()
+    groups = tree_jobs(thorough)
+    del JOBS[:]
+    for _, jobs in groups:
+        JOBS.extend(jobs)
+    jid_of = {id(j): n for n, j in enumerate(JOBS)}
+    diag = {"cases": 0, "model_disagreements": 0, "first": None}
+    tree_stats = []
+    defs = {}                       # every definition made so far (worker tables persist from group to group)
+    pool = multiprocessing.get_context("fork").Pool(processes=C.NCPU)
+    try:
+        for gname, jobs in groups:
+            tasks = []
+            for j in jobs:
+                tasks += job_tasks(jid_of[id(j)], seed)
+            terms, used, nodes = [], set(), 0
+            for r in pool.imap(_pool_walk, tasks, chunksize=1):
+                job = JOBS[r["task"][0]]
+                terms.append(r["term"])
+                defs.update(r["defs"])
+                used |= r["used"]
+                nodes += r["nodes"]
+                notes.update(r["notes"])
+                if job["claimed"]:
+                    chk.evaluations += r["leaves"]
+                    chk.nontrivial.update(r["nontrivial"])
+                    chk.dist[job["kind"]] += r["leaves"]
+                    for trig, what, hist in r["fails"]:
+                        oracle_fail(job["ls"], job["rs"], hist, [(trig, what)])
+                else:
+                    chk.dist[job["kind"]] += r["leaves"]
+                    diag["cases"] += r["leaves"]
+            per = max(1, nodes // max(1, len(terms)))
+            bad = C.coq_eval_cases("C15", "tree_" + gname.replace("-", "_"), IMPORTS, TREE_TYPE, "check_forest_case", terms,
+                                   shard=max(1, 20000 // per), extra_defs=defs_text(defs, used))
+            tree_stats.append({"group": gname, "subtrees": len(terms), "calls_compared": nodes})
+            del terms
+            # locate the shortest disagreeing history inside a refused sub-tree
+            for bi in bad[:3]:
+                task = tasks[bi]
+                job = JOBS[task[0]]
+                r = walk_task(task, collect_paths=True)
+                defs.update(r["defs"])
+                paths = r["paths"][:20000]
+                pterms = [path_term(job["ls"], job["rs"], h, ob) for h, ob in paths]
+                defs.update(I.drain())
+                pbad = C.coq_eval_cases("C15", "locate", IMPORTS, PATH_TYPE, "check_path_case", pterms, shard=2500,
+                                        extra_defs=defs_text(defs, names_in(pterms)))
+                if not job["claimed"]:
+                    diag["model_disagreements"] += len(pbad) or 1
+                    if diag["first"] is None and pbad:
+                        diag["first"] = replay_obj(job["ls"], job["rs"], paths[pbad[0]][0])
+                    continue
+                if not pbad:
+                    disagree(job["ls"], job["rs"], [g_apply(task[3], op) for op in task[1]], "somewhere below this prefix")
+                    continue
+                h, ob = paths[pbad[0]]
+                pre = [path_term(job["ls"], job["rs"], h[:n], ob[:n]) for n in range(1, len(h) + 1)]
+                defs.update(I.drain())
+                qbad = C.coq_eval_cases("C15", "locate2", IMPORTS, PATH_TYPE, "check_path_case", pre, shard=2500,
+                                        extra_defs=defs_text(defs, names_in(pre)))
+                n = (qbad[0] + 1) if qbad else len(h)
+                disagree(job["ls"], job["rs"], h[:n], "shortest disagreeing history of its sub-tree")
+            if len(bad) > 3 and any(JOBS[tasks[bi][0]]["claimed"] for bi in bad[3:]):
+                state["ndis"] += len(bad) - 3
+    finally:
+        pool.terminate()
+        pool.join()
+
+    # ---- random long histories (one path case each) ----
+    rterms, rcases, dterms, dcases = [], [], [], []
+    for ls, rs, ops, kind, claimed in random_cases(chk, thorough):
+        obs, fails, st = run_case(ls, rs, ops, oracle=claimed, notes=notes)
         if not claimed:
-            terms.append(case_term(ls, rs, ops, obs, alls, libs))
-            cases.append((ls, rs, ops))
+            dterms.append(path_term(ls, rs, ops, obs))
+            dcases.append((ls, rs, ops))
             chk.dist[kind] += 1
+            diag["cases"] += 1
             continue
-        nontriv = st["added"] and st["removed"] and (st["err"] or st["shared_tag"])
-        chk.count((repr(ls), repr(rs), tuple(ops)), nontriv, kind=kind,
-                  sample=replay_obj(ls, rs, ops, {"observed": [r for r, _ in obs]}) if (nontriv and kind == "random-private") else None)
+        nt = nontrivial(st)
+        chk.count((repr(ls), repr(rs), tuple(ops)), nt, kind=kind,
+                  sample=replay_obj(ls, rs, ops, {"observed": [r for r, _, _ in obs]}) if nt else None)
         if fails:
-            nfail += 1
-            if nfail <= 5:
-                oracle_fail(ls, rs, ops, fails)
+            oracle_fail(ls, rs, ops, fails)
             continue                        # the history was cut at the failure: nothing to compare with the model
-        terms.append(case_term(ls, rs, ops, obs, alls, libs))
-        cases.append((ls, rs, ops))
-    ndis = 0
-    for g in ("exh", "random"):
-        terms, cases = groups.get(g, ([], []))
-        bad = C.coq_eval_cases("C15", "reg_" + g, IMPORTS, CASE_TYPE, "check_reg", terms, shard=2500, extra_defs=INTERNERS[g].text()) if terms else []
-        # report the shortest disagreeing histories first
-        for i in sorted(bad, key=lambda i: len(cases[i][2]))[:max(0, 10 - ndis)]:
-            ndis += 1
-            ls, rs, ops = cases[i]
-            chk.disagree("Registry model != ComponentRegistry/Library (results, contents or tag table)",
-                         replay_obj(ls, rs, ops, {"kind": "history", "impl": repr(run_case(ls, rs, ops)[:3])[:1500]}))
-    diag_terms, diag_cases = groups.get("diag", ([], []))
-    dbad = C.coq_eval_cases("C15", "diag", IMPORTS, CASE_TYPE, "check_reg", diag_terms, shard=2500, extra_defs=INTERNERS["diag"].text()) if diag_terms else []
-    chk.extra["shared_library_diagnostic"] = {
-        "note": "two registries on ONE Library: outside the claimed domain, compared with the model only, never an alarm",
-        "cases": len(diag_terms), "model_disagreements": len(dbad),
-        "first": replay_obj(*diag_cases[dbad[0]]) if dbad else None}
+        rterms.append(path_term(ls, rs, ops, obs))
+        rcases.append((ls, rs, ops))
+    defs.update(I.drain())
+    dt = defs_text(defs, names_in(rterms) | names_in(dterms))
+    bad = C.coq_eval_cases("C15", "random", IMPORTS, PATH_TYPE, "check_path_case", rterms, shard=400, extra_defs=dt) if rterms else []
+    for i in sorted(bad, key=lambda i: len(rcases[i][2])):
+        ls, rs, ops = rcases[i]
+        disagree(ls, rs, ops, "random history")
+    dbad = C.coq_eval_cases("C15", "diag", IMPORTS, PATH_TYPE, "check_path_case", dterms, shard=400, extra_defs=dt) if dterms else []
+    diag["model_disagreements"] += len(dbad)
+    if dbad and diag["first"] is None:
+        diag["first"] = replay_obj(*dcases[dbad[0]])
+    diag["note"] = "two registries on ONE Library: outside the claimed domain, compared with the model only, never an alarm"
+    chk.extra["shared_library_diagnostic"] = diag
+    chk.extra["tree_groups"] = tree_stats
+    chk.extra["reported_not_alarmed"] = {
+        "counts": dict(sorted(notes.items())),
+        "same_class": "the library identifies a class with its import path (_class_hash; DESIGN section 10). register() of ANOTHER class object "
+                      "with the same hash on a held name is accepted as a re-registration of the same class: names, tags, _tags, "
+                      "library.tags stay as they are and the STORED OBJECT becomes the new one (get/all return it afterwards) - "
+                      "theorem same_hash_reregistration_replaces_object_only, Example same_hash_other_object_replaces_stored_object. "
+                      "The direct oracle compares classes by hash; the model comparison is by object.",
+        "unprotected_preexisting_tags": "the statement protects PROTECTED tags. A pre-existing tag of a Library that is not in its protected "
+                                        "list (no mark_protected_tags, or a custom list) is overwritten by a component whose tag collides with it "
+                                        "(shorthand formatter: tag == component name) and removed from library.tags when the last such component "
+                                        "is unregistered - Example unprotected_builtin_overwritten_then_removed.",
+    }
     # ---- matcher-level differential for TAG_RE ----
     vt = valid_tag_cases(chk, thorough)
     for s, ok in vt:
@@ -609,24 +1044,39 @@ def run(tier, seed):
     chk.assumptions = [
         "every registry has its own private django.template.Library (two registries on one Library: diagnostic only)",
         "the tag formatter and the protected-tag list of a registry do not change during a history; formatters are deterministic",
-        "a class is identified by _class_hash (its import path) as in the code; the model uses injective codes",
-        "names over code points < 128 (the model's \\w is exact there); single-threaded use",
+        "a class is identified by _class_hash (its import path) as in the code: another class object with the same hash is the same "
+        "class (accepted on re-registration; the stored object is replaced by it); the model uses injective codes for hashes",
+        "code points >= 128 in tags: the model reads which ones TAG_RE accepts from a table probed from the compiled TAG_RE on every run "
+        "(coq/Gen/C15.v tag_ranges_hi); single-threaded use",
     ]
+    Lf, Lo = (5, 6) if thorough else (4, 5)
     return chk.finish(
-        rule="one registry: every history of length L (observed after every call, so all shorter ones are included) over "
-             "{register x 3 names (a, slot, fill) x 3 classes (two share a _class_hash), unregister, get} + clear + all = 17 calls, for default / "
-             "shorthand formatter x with / without mark_protected_tags: %s; 4 further configurations (custom protected "
-             "list, user-defined formatter, empty library, invalid ComponentFormatter tag) with L=%d; two registries on two private libraries: "
-             "every interleaving of length 3 over 34 calls%s; seeded random histories of 7..40 calls over 1-3 registries, 15 names (invalid, "
-             "newline, protected, prefixed) and 7 formatters. Non-trivial = a tag was added to and removed from library.tags and (an exception "
-             "was raised or two registered names shared a tag). Distinct = distinct (configuration, history)."
-             % ("L=5 for shorthand+protected, L=4 for the other three" if thorough else "L=4 for component+unprotected and shorthand+protected, L=3 for the other two",
-                4 if thorough else 3, " and of length 4 over 24 calls (2 names)" if thorough else ""),
-        explanation="theorems of Props/C15.v re-checked by coqc; after EVERY call the result, registry.all() and the Library tag table "
-                    "(incl. whether each pre-existing tag still is the original function) are compared with an independent dict reference + "
-                    "tag-iff-used / protected-untouched predicates (direct oracle) and with the Coq model (vm_compute).",
+        rule="Calls = {register x 3 names (a, slot, fill) x 3 classes (K0; K1 and K1b = two class objects with ONE _class_hash), unregister, get} "
+             "+ clear + all = 17 per registry. One registry, default / shorthand formatter x Library without / with mark_protected_tags (4 "
+             "configurations): (i) ALL histories of length %d (17^%d each; every shorter history is an observed prefix); (ii) length %d: ONE history "
+             "per ORBIT of the group G (order 4) generated by the renamings slot<->fill (both pre-existing tags of the Library, both protected or "
+             "both not, treated alike by both formatters - checked per configuration) and K1<->K1b: statement, configuration and model are "
+             "invariant under G; the canonical histories (first call naming slot/fill names slot, first registration of K1/K1b registers K1) are "
+             "closed under prefixes, so they are enumerated as a tree without building the rest, and of every sub-tree the image under a member "
+             "of G drawn from the seed is what is run - each orbit exactly once, no member systematically skipped; that the code does not tell "
+             "members of an orbit apart is NOT assumed up to length %d, where all of them are run. 7 further configurations (custom protected "
+             "list, user-defined formatter, empty library, invalid ComponentFormatter tag, keyword / non-ASCII / non-word names, tag == name "
+             "colliding with an unprotected pre-existing tag next to a protected one): all histories of length %d. Two registries on two private "
+             "libraries, 34 calls: all interleavings of length 3 (2 configurations), one per orbit of length 4 (%s)%s. Histories are produced and "
+             "compared as trees (a node = one call + result + all() of every registry + tag table of every library; theorem "
+             "tree_check_is_per_history_check). Seeded random histories of 7..40 calls over 1-3 registries, 31 names (invalid, newline, protected, "
+             "prefixed, keywords, code points >= 128) and 8 formatters. evaluations = maximal histories (+ corpus, + tag strings). "
+             "Non-trivial = a tag was added to and removed from library.tags and (an exception was raised or two registered names shared a "
+             "tag). Distinct = distinct (configuration, history)."
+             % (Lf, Lf, Lo, Lf, 4 if thorough else 3, "both configurations" if thorough else "1 configuration",
+                "" if thorough else ", all interleavings of length 4 over 2 names (24 calls)"),
+        explanation="theorems of Props/C15.v re-checked by coqc; after EVERY call the result, all() of every registry and the tag table of every "
+                    "Library (incl. whether each pre-existing tag still is the original function) are compared with an independent dict "
+                    "reference + tag-iff-used / protected-untouched predicates (direct oracle; classes compared by _class_hash) and with the Coq "
+                    "model (vm_compute; classes compared by object).",
         extra_trusted=["modelled, not verified: Python dict/set semantics, django.template.Library.tag (stores the function under the name), "
-                       "re (TAG_RE modelled by a hand matcher, anchored to the pattern string and differentially tested every run)"])
+                       "re (TAG_RE: hand matcher below code point 128 anchored to the pattern string, table probed from the compiled TAG_RE "
+                       "from 128 on; differentially tested every run)"])
 
 
 def replay(path):
@@ -639,10 +1089,9 @@ def replay(path):
         ls = [(b, tuple(p) if isinstance(p, list) else p) for b, p in case["libs"]]
         rs = [(li, tuple(f)) for li, f in case["regs"]]
         ops = [(i, tuple(o)) for i, o in case["ops"]]
-        obs, alls, libs, fails, st = run_case(ls, rs, ops)
-        for (i, o), (res, snap) in zip(ops, obs):
-            print("registry %d %-28r -> %-28r library.tags=%r" % (i, o, res, snap))
-        print("all():", alls)
+        obs, fails, st = run_case(ls, rs, ops)
+        for (i, o), (res, alls, snaps) in zip(ops, obs):
+            print("registry %d %-28r -> %-28r all()=%r library.tags=%r" % (i, o, res, alls, snaps))
         print("oracle failures:", fails)
         return 1 if fails else 0
     return 0
